@@ -173,11 +173,11 @@ func c05HookOps() []c05Op {
 		{"HCreate", func(db *gorm.DB, rng *rand.Rand) func(*gorm.DB) error {
 			o := c05GenOrder(rng, "a")
 			o.Items = append(o.Items, C05Item{Name: "ia"})
-			return func(db *gorm.DB) error { c := *o; return db.Create(&c).Error }
+			return func(db *gorm.DB) error { c := c05CloneOrder(o); return db.Create(c).Error }
 		}},
 		{"HCreateSlice", func(db *gorm.DB, rng *rand.Rand) func(*gorm.DB) error {
 			a, b := c05GenOrder(rng, "b"), c05GenOrder(rng, "c")
-			return func(db *gorm.DB) error { x, y := *a, *b; os := []*C05Order{&x, &y}; return db.Create(&os).Error }
+			return func(db *gorm.DB) error { os := []*C05Order{c05CloneOrder(a), c05CloneOrder(b)}; return db.Create(&os).Error }
 		}},
 		{"HCreateInBatches", func(db *gorm.DB, rng *rand.Rand) func(*gorm.DB) error {
 			n, size := 3+rng.Intn(3), 1+rng.Intn(2)
@@ -188,7 +188,7 @@ func c05HookOps() []c05Op {
 			return func(db *gorm.DB) error {
 				cp := make([]C05Order, len(os))
 				for i := range os {
-					cp[i] = *os[i]
+					cp[i] = *c05CloneOrder(os[i])
 				}
 				return db.CreateInBatches(&cp, size).Error
 			}
@@ -196,15 +196,15 @@ func c05HookOps() []c05Op {
 		{"HSaveExistingFull", func(db *gorm.DB, rng *rand.Rand) func(*gorm.DB) error {
 			o := loadFirst(db)
 			return func(db *gorm.DB) error {
-				c := *o
+				c := c05CloneOrder(o)
 				c.Name += "x"
-				c.Items = append(append([]C05Item{}, o.Items...), C05Item{Name: "newitem"})
-				return db.Session(&gorm.Session{FullSaveAssociations: true}).Save(&c).Error
+				c.Items = append(c.Items, C05Item{Name: "newitem"})
+				return db.Session(&gorm.Session{FullSaveAssociations: true}).Save(c).Error
 			}
 		}},
 		{"HSaveNew", func(db *gorm.DB, rng *rand.Rand) func(*gorm.DB) error {
 			o := c05GenOrder(rng, "g")
-			return func(db *gorm.DB) error { c := *o; return db.Save(&c).Error }
+			return func(db *gorm.DB) error { c := c05CloneOrder(o); return db.Save(c).Error }
 		}},
 		{"HUpdatesWithAssoc", func(db *gorm.DB, rng *rand.Rand) func(*gorm.DB) error {
 			o := loadFirst(db)
@@ -234,6 +234,18 @@ func c05HookOps() []c05Op {
 			return func(db *gorm.DB) error { c := C05Order{ID: o.ID}; return db.Delete(&c).Error }
 		}},
 	}
+}
+
+func c05CloneOrder(o *C05Order) *C05Order {
+	b, err := json.Marshal(o)
+	if err != nil {
+		panic(err)
+	}
+	var c C05Order
+	if err := json.Unmarshal(b, &c); err != nil {
+		panic(err)
+	}
+	return &c
 }
 
 func c05HookOpByName(n string) (c05Op, bool) {
